@@ -1,0 +1,16 @@
+//go:build verif
+
+// Package verifhook is compiled only with the build tag "verif".
+// It exposes the build command to an external verification harness,
+// which cannot import internal/cmd directly.
+package verifhook
+
+import (
+	"github.com/gontainer/gontainer/internal/cmd"
+	"github.com/spf13/cobra"
+)
+
+// NewBuildCmd forwards to internal/cmd.NewBuildCmd.
+func NewBuildCmd(version string, buildInfo string) *cobra.Command {
+	return cmd.NewBuildCmd(version, buildInfo)
+}
